@@ -189,7 +189,7 @@ Section Spec.
                     match l with [] => true | x :: r => lambda_plain x && go r end) l
     | VMap l => (fix go (l : list (val * val)) : bool :=
                    match l with [] => true | (k, x) :: r => lambda_plain k && lambda_plain x && go r end) l
-    | VTicket _ _ _ _ => false   (* tickets cannot be packed: no optimized tree is specified for them *)
+    | VTicket _ _ _ _ | VBigMapId _ => false   (* tickets / big_maps cannot be packed: no optimized tree is specified *)
     | _ => true
     end.
 End Spec.
